@@ -80,9 +80,10 @@ that has a queued event, and that event is the *last* one queued for the paramet
 raised by the most recent qualifying assignment, so it carries the final value), typed for this
 watcher. -/
 theorem one_event_per_parameter_with_last_value (tr : Bool) (wt : Watcher) (dict : List Ev) :
-    (evsFor tr wt dict).map (·.name) = wt.params.filter (fun n => dict.any (fun e => e.name = n)) ∧
-    (∀ te ∈ evsFor tr wt dict, ∃ e pre post, dict = pre ++ e :: post ∧ (∀ e' ∈ post, e'.name ≠ te.name) ∧
-        te = typed tr wt e) := by
+    (evsFor tr wt dict).map (·.name) =
+      wt.params.filter (fun n => dict.any (fun e => e.name = n && e.what = wt.what)) ∧
+    (∀ te ∈ evsFor tr wt dict, ∃ e pre post, dict = pre ++ e :: post ∧
+        (∀ e' ∈ post, ¬(e'.name = te.name ∧ e'.what = wt.what)) ∧ te = typed tr wt e) := by
   refine ⟨evsFor_names tr wt dict, ?_⟩
   intro te hte
   obtain ⟨e, hl, ht⟩ := evsFor_mem hte
@@ -103,12 +104,12 @@ unchanged event of `b` queued for another watcher.  Recorded as finding
 check (corpus/dispatch/foreign-event.json). -/
 def C04_per_watcher_full : Prop :=
   ∀ (tr : Bool) (wt : Watcher) (dict : List Ev), ∀ te ∈ evsFor tr wt dict,
-    passes tr wt ⟨te.name, te.old, te.new⟩ = true
+    passes tr wt { name := te.name, old := te.old, new := te.new } = true
 
 theorem C04_per_watcher_full_refuted : ¬ C04_per_watcher_full := by
   intro h
-  have := h false ⟨0, [0, 1], true, false, 0, 0, 0⟩ [⟨0, 0, 1⟩, ⟨1, 0, 0⟩]
-    ⟨1, 0, 0, .changed⟩ (by decide)
+  have := h false (mkW 0 [0, 1] true false 0 0) [{ name := 0, old := 0, new := 1 }, { name := 1, old := 0, new := 0 }]
+    { name := 1, old := 0, new := 0, type := .changed } (by decide)
   revert this
   decide
 
@@ -275,15 +276,15 @@ theorem trigger_unknown_name_touches_nothing (c : Cfg) (f : Nat) (ps : List Nat)
 def c04Cfg : Cfg := { bounds := [(none, none), (none, none)], bodies := [] }
 def c04World : World :=
   { vals := [0, 0], batch := false, trigger := false, events := [], queued := [],
-    regs := [⟨0, [0, 1], true, false, 1, 9, 0⟩, ⟨1, [1], false, false, 0, 9, 1⟩] }
+    regs := [mkW 0 [0, 1] true false 1 9, mkW 1 [1] false false 0 9] }
 
 -- batch { a = 1; a = 2; b = 0 }: one flush round, watcher 1 (precedence 0) then watcher 0; watcher 0 gets
 -- one event for a carrying 2 — and (the finding) the unchanged event of b
 example : callSigs (run c04Cfg 40 (.stmt (.batch [.set 0 1, .set 0 2, .set 1 0])) c04World).2.2 = [] := by decide
 example : (run c04Cfg 40 (.stmt (.batch [.set 0 1, .set 0 2, .set 1 0])) c04World).2.1.ncalls = 2 := by decide
 example : (run c04Cfg 40 (.stmts [.set 0 1, .set 0 2]) { c04World with batch := true }).2.1.events =
-    [⟨0, 0, 1⟩, ⟨0, 1, 2⟩] := by decide
-example : evsFor false ⟨0, [0, 1], true, false, 1, 9, 0⟩ [⟨0, 0, 1⟩, ⟨0, 1, 2⟩, ⟨1, 0, 0⟩] =
-    [⟨0, 1, 2, .changed⟩, ⟨1, 0, 0, .changed⟩] := by decide
+    [{ name := 0, old := 0, new := 1 }, { name := 0, old := 1, new := 2 }] := by decide
+example : evsFor false (mkW 0 [0, 1] true false 1 9) [{ name := 0, old := 0, new := 1 }, { name := 0, old := 1, new := 2 }, { name := 1, old := 0, new := 0 }] =
+    [{ name := 0, old := 1, new := 2, type := .changed }, { name := 1, old := 0, new := 0, type := .changed }] := by decide
 
 end ParamVerif.Dispatch
